@@ -12,4 +12,8 @@ const (
 
 func verifTick(kind int) {}
 
+func verifParseTick() {}
+
+func verifParserMade() {}
+
 func verifJumpSeed(val any) any { return val }
